@@ -786,6 +786,44 @@ func (n *Node) Digest() string {
 	return hex.EncodeToString(h.Sum(nil)[:16])
 }
 
+// CoinbaseSelfCheck builds coinbase-only blocks with the real pow.Service.AssignCoinbaseTxRewards
+// and hands them to the node's own validation in the one reward regime no check of the fixture
+// mines in otherwise: DPoS v2 active (State.DPoSV2ActiveHeight set to 1 on an otherwise pure-PoW
+// node, CheckRewardHeight 0 so the amount/address rules are on) with the consensus reverted to
+// POW, where checkCoinbaseTransactionContext wants the CR and DPoS shares at the destroy
+// address. A refusal means miner and validator disagree about the coinbase; it is returned as
+// (regime, error) for the caller to report.
+func CoinbaseSelfCheck() (regime string, err error) {
+	regime = "dposv2-active+consensus-pow"
+	n, e := NewNode(Config{Tweak: func(p *config.Configuration) { p.CheckRewardHeight = 0 }})
+	if e != nil {
+		return regime, e
+	}
+	defer n.Close()
+	st := n.Chain.GetState()
+	st.DPoSV2ActiveHeight = 1
+	st.ConsensusAlgorithm = state.POW
+	parent := n.Genesis()
+	for i := 0; i < 4; i++ {
+		b := n.BuildBlock(parent, nil, 7000)
+		in, orphan, e := n.ProcessBlock(b)
+		if e != nil || !in || orphan {
+			return regime, fmt.Errorf("block at height %d built by AssignCoinbaseTxRewards is refused by BlockChain.ProcessBlock: inMain=%v orphan=%v err=%v (coinbase outputs: %s)", b.Height, in, orphan, e, describeOutputs(b))
+		}
+		parent = b
+	}
+	return regime, nil
+}
+
+func describeOutputs(b *types.Block) string {
+	var sb strings.Builder
+	for i, o := range b.Transactions[0].Outputs() {
+		a, _ := o.ProgramHash.ToAddress()
+		fmt.Fprintf(&sb, "[%d] %d -> %s ", i, o.Value, a)
+	}
+	return sb.String()
+}
+
 // Short renders a hash prefix for messages.
 func Short(h common.Uint256) string { return hex.EncodeToString(h[:4]) }
 
